@@ -205,10 +205,11 @@ class SensingAgent(Agent):
         Args:
             ephemeris (:class:`._EphemerisMixin`): data object to update this SensingAgent's state with
         """
-        self.eci_state = array(ephemeris.eci)
+        # [NOTE]: the time is set first, setting the state derives the ECEF & LLA states at the current time
         self._time = JulianDate(ephemeris.julian_date).convertToScenarioTime(
             self.julian_date_start,
         )
+        self.eci_state = array(ephemeris.eci)
 
     @property
     def eci_state(self) -> ndarray:
